@@ -996,7 +996,7 @@ class Patron(object):
                                       "host '{0}'".format(location))
                 self.connector.close()
                 if secured:
-                    context = getattr(self.connector, 'context')
+                    context = getattr(self.connector, 'context', None)
                     connector = ClientTls(store=self.connector.store,
                                            name=self.connector.name,
                                            uid=self.connector.uid,
